@@ -127,3 +127,85 @@ def copy_mode_findings(F):
     others = sorted(n_ for n_, b_ in F.bodies.items() if not n_.startswith("bin:") and n_ != rv.name and not n_.endswith("Server::startup::{closure#0}")
                     and any(proj_fields(st["lhs"])[-1:] == ["in_copy_mode"] for blk, i, st in b_.assigns()))
     yield ("copy-flag-writers", not others, ",".join(others), None)
+
+
+def rollback_findings(F):
+    """checkin_cleanup: on the in_transaction()==true edge every way to an Ok return (and to the clearing of the release gate) crosses the
+    success edge of a Server::query whose text carries ROLLBACK/ABORT, or marks the connection bad. Yields (key, ok, where, witness)."""
+    cc = F.body("pgcat::server::Server::checkin_cleanup::{closure#0}")
+    if cc is None:
+        yield ("checkin_cleanup", None, "", None)
+        return
+    csw = switches(cc)
+    T, Fa, _ = call_bool_edges(cc, "pgcat::server::Server::in_transaction", switches_cache=csw)
+    fT, fF = field_bool_edges(cc, "in_transaction", csw)
+    T = set(T) | set(fT)
+    if not T:
+        yield ("in_transaction-test", None, "", None)
+        return
+    rb = []
+    for c in cc.calls("pgcat::server::Server::query"):
+        texts = set(arg_strs(cc, c))
+        for o in origins(cc, c.args[1], taint=True):
+            if o.kind == "call":
+                texts |= set(arg_strs(cc, o.call))
+            if o.kind == "const" and isinstance(o.what, str):
+                texts.add(o.what)
+        if any(re.search(r"\b(ROLLBACK|ABORT)\b", x.upper()) for x in texts):
+            rb.append(c)
+    okE = set()
+    for c in rb:
+        cont, _, _ = discr_edges(cc, r"ControlFlow<", "Continue", origin_pred=lambda o, c=c: o.kind == "call" and o.call.block == c.block, switches_cache=csw)
+        okE |= set(cont)
+        sE, _, _ = discr_edges(cc, r"core::result::Result<", "Ok", origin_pred=lambda o, c=c: o.kind == "call" and o.call.block == c.block, switches_cache=csw)
+        okE |= set(sE)
+    marks = [c.block for c in cc.calls(MARK_BAD)] + [blk for blk, i, st in cc.assigns() if is_bad_write(st)]
+    oks = [blk for blk, i, st in cc.assigns() if st["lhs"]["l"] == 0 and not st["lhs"]["p"] and st["rv"]["k"] == "agg" and st["rv"].get("variant") == "Ok"]
+    w = cc.uncrossed_path([d for _, d in T], oks, edges=okE, blocks=marks) if okE else [0]
+    yield ("open-transaction=>ROLLBACK", bool(rb) and w is None, rb[0].where() if rb else "pgcat::server::Server::checkin_cleanup", w and cc.describe_path(w))
+
+
+def set_shard_refusal_findings(F):
+    """SET SHARD naming a shard that is not configured: refused with an error, acknowledged only in range, and the shard the session had before
+    the command is restored (read before try_execute_command ran). Yields (key, ok, okmsg, failmsg)."""
+    HCP = "pgcat::client::Client::handle_custom_protocol::{closure#0}"
+    QR = "pgcat::query_router::QueryRouter::"
+    hc = F.body(HCP)
+    if hc is None:
+        yield ("handle_custom_protocol", None, "", "")
+        return
+    hsw = switches(hc)
+    cmpE = []
+    for sw in hsw:
+        if not sw.is_bool():
+            continue
+        for o in sw.origins():
+            if o.kind == "bin" and o.what in ("Ge", "Lt", "Gt", "Le"):
+                a_c = {oo.call.name for oo in origins(hc, o.extra["a"], taint=True) if oo.kind == "call"}
+                b_c = {oo.call.name for oo in origins(hc, o.extra["b"], taint=True) if oo.kind == "call"}
+                if "pgcat::pool::ConnectionPool::shards" in a_c | b_c and QR + "shard" in a_c | b_c:
+                    te, fe = sw.bool_edges()
+                    if o.neg:
+                        te, fe = fe, te
+                    # normalise to "out of range" edge
+                    shard_left = QR + "shard" in a_c
+                    oor = te if ((o.what == "Ge" and shard_left) or (o.what == "Le" and not shard_left)) else (fe if ((o.what == "Lt" and shard_left) or (o.what == "Gt" and not shard_left)) else None)
+                    cmpE.append((o.what, shard_left, oor, fe if oor == te else te))
+    if not cmpE or cmpE[0][2] is None:
+        yield ("range-check", False, "", "handle_custom_protocol does not compare the selected shard with pool.shards() using >= (found %s): shard == shards would be accepted" % [(w, l) for w, l, _, _ in cmpE])
+    else:
+        what, left, oor, inr = cmpE[0]
+        reach_bad = hc.reach([oor[1]])
+        reach_ok = hc.reach([inr[1]])
+        ss = [c for c in hc.calls(QR + "set_shard") if c.block in reach_bad and hc.dominates(oor[1], c.block)]
+        er = [c for c in hc.calls("pgcat::messages::error_response") if c.block in reach_bad and hc.dominates(oor[1], c.block)]
+        okc = [c for c in hc.calls("pgcat::messages::custom_protocol_response_ok") if hc.dominates(inr[1], c.block)]
+        yield ("refused", bool(ss) and bool(er), "an out-of-range shard restores the previous shard and sends an error", "out-of-range SET SHARD is not refused (set_shard=%d error=%d)" % (len(ss), len(er)))
+        yield ("ok-only-in-range", bool(okc) and not [c for c in hc.calls("pgcat::messages::custom_protocol_response_ok") if hc.dominates(oor[1], c.block)], "SET SHARD is acknowledged only in range", "SET SHARD is acknowledged although out of range")
+        if ss:
+            # the restored value was read before try_execute_command ran
+            tcall = hc.calls(QR + "try_execute_command")
+            src = [o.call for o in origins(hc, ss[0].args[1], taint=True) if o.kind == "call" and o.call.name == QR + "shard"]
+            yield ("restore-previous", bool(tcall) and bool(src) and all(hc.dominates(s_.block, tcall[0].block) and s_.block != tcall[0].block for s_ in src),
+                   "the restored value is QueryRouter::shard() read before the command was executed",
+                   "a refused SET SHARD does not put back the shard the session had before the command (it clears it or keeps the refused one): SHOW SHARD and the routing of later queries no longer follow the last accepted SET")
